@@ -202,6 +202,12 @@ def finish(check, body_error=None):
     for o in kn:
         print("KNOWN-FINDING: property=%s %s %s %s" % (pid, o.rule, o.construct, o.detail))
     code = 0
+    if not viol:
+        # a replay file left by an earlier run that did report violations is stale now
+        try:
+            os.remove(os.path.join(EVIDENCE_DIR, "%s.violations.json" % pid))
+        except OSError:
+            pass
     if viol:
         vpath = os.path.join(EVIDENCE_DIR, "%s.violations.json" % pid)
         with open(vpath, "w") as fh:
